@@ -1,7 +1,7 @@
 (* WireRoundtrip.v — C05: each builder is inverted exactly by the stream decoder plus its reader. *)
 From Coq Require Import ZArith List Lia Bool ZifyBool.
 From Coq Require Import Strings.Byte.
-From HP Require Import Bytes Utf8 Sha1 Wire WireFacts Params ParamsOK.
+From HP Require Import Bytes Utf8 Sha1 Wire WireFacts Params ParamsOK ParamsC05.
 Import ListNotations.
 Open Scope Z_scope.
 
